@@ -124,7 +124,9 @@ package state
 //@ ensures [rewards] big(result.RewardsDistributable) == big(v.RewardsDistributable) && big(result.RewardsTotal) == big(v.RewardsTotal)
 //@ ensures [deref] v != nil
 //@ ensures [same-validator] c07Addr(result) == c07Addr(v)
-//@ ensures [scalars] result.Role == v.Role && result.Status == v.Status && result.Coinbase == v.Coinbase && result.CommissionRate == v.CommissionRate && result.RiskObligation == v.RiskObligation && result.RewardsLastSettled == v.RewardsLastSettled && result.Delegations == v.Delegations && result.MainPubKey == v.MainPubKey
+//@ ensures [scalars] result.Role == v.Role && result.Status == v.Status && result.Coinbase == v.Coinbase && result.CommissionRate == v.CommissionRate && result.RiskObligation == v.RiskObligation && result.RewardsLastSettled == v.RewardsLastSettled && result.MainPubKey == v.MainPubKey
+//@ ensures [delegations-copied] len(result.Delegations) == len(v.Delegations) && (len(v.Delegations) > 0 ==> fresh(result.Delegations)) &&
+//@         (forall k: int :: { elems(result.Delegations)[k] } 0 <= k && k < len(v.Delegations) ==> elems(result.Delegations)[off(result.Delegations) + k] == v.Delegations[k])
 
 //@ func (*Validator).AddTotalRewards props C07
 //@ requires v.RewardsDistributable != v.RewardsTotal && reward != v.RewardsDistributable
